@@ -521,8 +521,12 @@ package consensus
 //@   ensures @sum types.u128(sum) == sumSCO(outputs, len(outputs))
 
 // the Merkle-root closure of storage proof validation (hashing; C07 [B])
+// the v1 Merkle path recomputation: its value is an uninterpreted function for the callers; the
+// body is checked for safety and for frame / determinism (no package-level cache)
 //@ func validateFileContracts$4
 //@   abstract
+//@   pure
+//@   prop C09 C10
 
 //@ spec v1fcSumsOK(fc types.FileContract) bool = (forall j in 0..len(fc.ValidProofOutputs)+1 :: sumSCO(fc.ValidProofOutputs, j) < types.M128) && (forall j in 0..len(fc.MissedProofOutputs)+1 :: sumSCO(fc.MissedProofOutputs, j) < types.M128)
 
